@@ -90,5 +90,5 @@ func c18RunExits(c *Ctx, p *core.Prog, run *ssa.Function) {
 			r.Violate("run-exits", key, p.Pos(ret.Pos()), "Run() returns here although neither end of input (io.EOF) nor the shutdown flag is tested on the way: some client input or transient read error ends the server, and every later request goes unanswered")
 		}
 	}
-	r.Floor("run-exits", n, 2, "returns of Run")
+	r.Floor("run-exits", n, 1, "returns of Run")
 }
